@@ -12,6 +12,7 @@ import FxVerif.Model.Util
   table of the nonce under vote; `pow <oracle> <power|none>` / `total <t>`: power changes between votes (delegation,
   slashing, removal — environment); `run <nonce> <handlerFails>`: `ExecuteClaim`;
 * `hbt <module> <store k:v,…|-> <bt claim line>`: the regenerated statement list of `AddBridgeTokenExecuted`, interpreted;
+* `hdep <tag> <field> <dep|indep>`: a dependence of the real handlers on a field must be listed in the regenerated view;
 * `akey <nonce> <hash hex>` / `pkey <nonce>`: the bytes of `GetAttestationKey` / `GetPendingExecuteClaimKey` from the regenerated
   layouts. -/
 open FxVerif FxVerif.Util FxVerif.Model.C03
@@ -138,6 +139,12 @@ def opLine (d : DState) : List String → Option (DState × String)
       | .err => pure (d, "err")
       | .stuck => pure (d, "stuck")
     | _ => none
+  | ["hdep", tag, field, finding] => do
+    -- the harness changed only `field` of a claim of type `tag` and ran the real handlers on both from one state:
+    -- `finding` = dep / indep.  A dependence on a field the REGENERATED view does not list means the translator's view is
+    -- incomplete (correspondence break); `*` in the view = the whole claim
+    let vf ← AnyClaim.viewFieldsOfTag tag
+    pure (d, if finding == "indep" || vf.contains field || vf.contains "*" then "ok" else "view-misses-field")
   | ["akey", n, h] => do
     -- `types.GetAttestationKey(n, h)`: the regenerated layout interpreted by the model
     pure (d, hex (keyBytes (← n.toNat?) (← unhex h) FxVerif.Gen.C03.attestationKeyParts))
